@@ -190,7 +190,6 @@ func checkBalancedCounters(p *Prog, l *Ledger, rule string) {
 	}
 }
 
-
 // deferDeltaOf: the change a deferred closure applies to counter k when it runs.
 func deferDeltaOf(d *ssa.Defer, k string) int64 {
 	total := int64(0)
